@@ -674,6 +674,9 @@ pub fn alphabet(ty: VariantType, codec: Codec, large: bool) -> Vec<LV> {
                 ("k2".into(), vec![kp(0.0, 1.0, 0.0), kp(1.0, 0.0, 0.0)]),
                 ("k2-envelope".into(), vec![kp(0.0, 1.0, 0.25), kp(1.0, 0.0, 0.5)]),
                 ("k3".into(), vec![kp(0.0, 1.0, 0.0), kp(0.5, 0.5, 0.125), kp(1.0, 0.0, 0.0)]),
+                // "empty and long sequences": past any small pre-allocation bound
+                ("k1025".into(), (0..1025).map(|i| kp(i as f32 / 1024.0, (i % 7) as f32, 0.0)).collect()),
+                ("k5000".into(), (0..5000).map(|i| kp(i as f32 / 4999.0, (i % 11) as f32, 0.0)).collect()),
             ];
             for (l, k) in seqs {
                 if k.len() >= min_k {
@@ -694,6 +697,8 @@ pub fn alphabet(ty: VariantType, codec: Codec, large: bool) -> Vec<LV> {
                 ("k1".into(), vec![kp(0.0, 1.0, 0.5, 0.25)]),
                 ("k2".into(), vec![kp(0.0, 1.0, 0.5, 0.25), kp(1.0, 0.0, 0.0, 1.0)]),
                 ("k3".into(), vec![kp(0.0, 1.0, 0.5, 0.25), kp(0.5, 0.5, 0.5, 0.5), kp(1.0, 0.0, 0.0, 1.0)]),
+                ("k1025".into(), (0..1025).map(|i| kp(i as f32 / 1024.0, (i % 5) as f32 / 4.0, 0.5, 0.25)).collect()),
+                ("k5000".into(), (0..5000).map(|i| kp(i as f32 / 4999.0, 0.25, (i % 3) as f32 / 2.0, 1.0)).collect()),
             ];
             for (l, k) in seqs {
                 if k.len() >= min_k {
